@@ -54,7 +54,8 @@ PROPS = {
         id='C41', cluster='Svc', crate='h-svc', tag=41,
         n={'quick': 3000, 'thorough': 60000},
         translators=[['python3', 'translators/seqlock2coq.py']],
-        theorems=[],
+        theorems=['state_forward_only', 'stopped_never_runs', 'shutdown_at_most_once', 'await_stop_returns',
+                  'await_stop_result', 'background_step_facts', 'service_trace_checker_sound'],
         classify=_c41_classes,
         rule='real ServiceRunner on a current-thread tokio runtime with a scripted task whose into_task/run/shutdown '
              'calls wait for a permit: every sequence of <= 4 (thorough 6) ops over {start, stop, permit, await_stop} x '
